@@ -4,13 +4,17 @@ SRC = ["src/smpi/mpi/smpi_group.cpp"]
 OPS = ["incl", "excl", "range_incl", "range_excl", "union", "inter", "diff", "compare", "translate"]
 META = {
     "bounds": "groups of 1..3 ranks (quick: <=2) over process ids 0..3 (symbolic, distinct inside a group: every overlap pattern and order), rank lists of "
-              "1..3 valid distinct ranks, 1..2 range triples with stride in -8..8; vector capacity 4; unwind 6",
-    "outside": "Group::rank's fallback through Actor::by_pid (ranks of actors spawned by a member), Comm::split/dup/create (collectives over the engine), "
+              "1..3 valid distinct ranks, vector capacity 4; unwind 6",
+    "outside": "MPI_Group_range_incl / range_excl (measured: not decidable within 28 GB / 400 s), Group::rank's fallback through Actor::by_pid (ranks of actors spawned by a member), Comm::split/dup/create (collectives over the engine), "
                "messages crossing communicators (see C28), argument validation of the PMPI layer (assumed as precondition)",
     "stubs": ["s4u::Actor::by_pid -> nullptr", "F2C::add_f / F2C ctor (Fortran handle table)", "xbt logging -> silent", "abort() = violation"],
     "assumptions": ["rank lists and ranges satisfy what PMPI_Group_* checks before calling (valid ranks, non-zero stride of the right sign) and what MPI requires (distinct ranks)"],
     "functions_filter": r"Group",
 }
+
+
+import os
+PATHS = bool(os.environ.get("C32_PATHS"))
 
 
 def queries(tier):
@@ -19,8 +23,8 @@ def queries(tier):
     def q(name, defs, **kw):
         defs = dict(defs, PIDMAX=4)
         heavy = name.startswith(("union", "range")) or name.endswith(("3x2", "2x3"))
-        qs.append(Query(name, "C32/group.cpp", "harness_group", defs, SRC, unwind=6, cap_s=2400 if heavy else 900, mem_gb=30 if heavy else 12,
-                        ll2c_cap=4, memcap=4, tiers=("quick", "thorough") if name in QUICK else ("thorough",), **kw))
+        qs.append(Query(name, "C32/group.cpp", "harness_group", defs, SRC, unwind=10 if heavy else 6, cap_s=2400 if heavy else 900, mem_gb=30 if heavy else 12,
+                        ll2c_cap=8 if heavy else 4, memcap=8 if heavy else 4, tiers=("quick", "thorough") if name in QUICK else ("thorough",), paths=PATHS, **kw))
     for n1 in (1, 2, 3):
         for k in range(1, n1 + 1):
             if n1 == 3 and k > 1:
@@ -28,9 +32,7 @@ def queries(tier):
             q(f"incl_n{n1}_k{k}", dict(P_N1=n1, P_K=k, P_OP=0))
             if n1 < 3:
                 q(f"excl_n{n1}_k{k}", dict(P_N1=n1, P_K=k, P_OP=1))
-        if n1 <= 2:
-            q(f"range_incl_n{n1}_k1", dict(P_N1=n1, P_K=1, P_OP=2))
-            q(f"range_excl_n{n1}_k1", dict(P_N1=n1, P_K=1, P_OP=3))
+        # (range_incl / range_excl, harness ops 2 and 3: no verdict - 28 GB exhausted in merge mode, > 200 s path by path - not claimed)
         for n2 in (1, 2, 3):
             if n1 + n2 > 4 and not (n1, n2) in ((3, 2), (2, 3)):
                 continue
